@@ -668,7 +668,8 @@ fn deser_col_specs_generic<'frame, 'result>(
     make_col_spec: fn(&'frame str, ColumnType<'result>, TableSpec<'frame>) -> ColumnSpec<'result>,
     deser_type: fn(&mut &'frame [u8]) -> StdResult<ColumnType<'result>, CqlTypeParseError>,
 ) -> StdResult<Vec<ColumnSpec<'result>>, ColumnSpecParseError> {
-    let mut col_specs = Vec::with_capacity(col_count);
+    // The count comes from the peer; every column spec takes at least one byte of `buf`.
+    let mut col_specs = Vec::with_capacity(std::cmp::min(col_count, buf.len()));
     for col_idx in 0..col_count {
         let table_spec = match global_table_spec {
             // If global table spec was provided, we simply clone it to each column spec.
@@ -962,7 +963,8 @@ fn deser_prepared_metadata(
     let pk_count: usize =
         types::read_int_length(buf).map_err(PreparedMetadataParseError::PkCountParseError)?;
 
-    let mut pk_indexes = Vec::with_capacity(pk_count);
+    // The count comes from the peer; every index takes two bytes of `buf`.
+    let mut pk_indexes = Vec::with_capacity(std::cmp::min(pk_count, buf.len() / 2));
     for i in 0..pk_count {
         pk_indexes.push(PartitionKeyIndex {
             index: types::read_short(buf)
